@@ -36,6 +36,18 @@ class Acc:
         if len(v["records"]) < 2:
             v["records"].append(jsonable(record))
 
+    def tag_env(self, env):
+        """mark every violation of this accumulator as found under the process-wide setting `env` (key suffix + replay field)"""
+        out = {}
+        for k, v in self.viol.items():
+            for r in v["records"]:
+                if isinstance(r.get("replay"), dict):
+                    r["replay"]["env"] = env
+                r["what"] = "[%s] %s" % (env, r.get("what", ""))
+            out[k + "/" + env] = v
+        self.viol = out
+        return self
+
     def sample(self, x, limit=4):
         if len(self.samples) < limit:
             self.samples.append(jsonable(x))
